@@ -33,148 +33,12 @@ CFG = 'Conn_c05.cfg'
 NOLIMIT = {'bad_command_limit': None}
 
 
-def make_driver(env: str, rng, cfg: str = CFG):
+def make_driver_for(cfg: str):
     kw = None if cfg == 'Conn_badlimit.cfg' else NOLIMIT
-    return cc.ImapDriver(env, rng, rich=True, config_kw=kw)
 
-
-class Exec:
-    """Bookkeeping shared by all kinds of executions."""
-
-    def __init__(self, run: Run, model: cc.Model, cfg: str):
-        self.run = run
-        self.model = model
-        self.cfg = cfg
-        self.n = 0
-        self.steps = 0
-        self.notes: set = set()
-        self.nolabel = 0
-
-    def start(self, env: str, kind: str, protocol: bool = True) -> cc.Tracked:
-        self.n += 1
-        sub = (self.run.seed * 1000003 + self.n) & 0x7fffffff
-        rng = random.Random(sub)
-        drv = make_driver(env, rng, self.cfg)
-        t = cc.Tracked(self.model, drv, {'env': env, 'kind': kind, 'rng_seed': sub},
-                       protocol=protocol)
-        if t.cur is None:
-            self.run.drift.append({'why': 'greeting / initial state matches no initial '
-                                          'state of the model', 'env': env,
-                                   'observed': cc.obs_str(t.obs0)})
-        return t
-
-    def finish(self, t: cc.Tracked) -> None:
-        run = self.run
-        self.steps += len(t.labels)
-        self.notes |= t.d.notes
-        out = t.d.outcome()
-        if isinstance(out, tuple):
-            # connection task died with an exception (C06's business; noted)
-            self.notes.add('connection task ended with ' + out[1][:80])
-        run.count_exec(t.labels, nontrivial=t.changed)
-        if t.problem:
-            verdict, what, sig, detail = t.problem
-            if verdict == 'violation':
-                run.violation(what, t.replay_dict('C05', self.cfg), sig)
-            else:
-                run.drift.append({'labels': t.labels, 'what': what[:600]})
-        if len(run.cov['samples']) < 3 and t.changed and len(t.labels) >= 3:
-            run.sample({'env': t.meta['env'], 'kind': t.meta['kind'],
-                        'trace': t.trace[:12]})
-        t.d.close()
-
-
-def tour(ex: Exec, max_len: int, deadline: float) -> dict:
-    model = ex.model
-    pl = cc.Planner(model, None)
-    total = pl.left()
-    paths = 0
-    nav_steps = 0
-    while pl.left() and time.time() < deadline:
-        init = pl.best_init()
-        if init is None:
-            break
-        env = cc.env_of_init(model, init)[0]
-        t = ex.start(env, 'tour')
-        paths += 1
-        if t.cur is None:
-            ex.finish(t)
-            break
-        if t.cur != init:
-            # the server started in another initial state of the model: fine,
-            # plan from there
-            pass
-        while len(t.labels) < max_len and not model.is_closed(t.cur):
-            core = model.core_of[t.cur]
-            label, cover = pl.choose(core)
-            if label is None:
-                break
-            v = t.step(label, protocol=cover)
-            pl.done(core, label)
-            if not cover:
-                nav_steps += 1
-            if v != 'ok':
-                break
-        ex.finish(t)
-    return {'pairs': total, 'uncovered': pl.left(), 'paths': paths,
-            'navigation_steps': nav_steps}
-
-
-def run_labels(ex: Exec, env: str, labels, kind: str, probe_every: int = 1) -> None:
-    """probe_every = n: the protocol probes run after every n-th input and
-    after the last one; in between the state is read off ConnectionState."""
-    t = ex.start(env, kind, protocol=probe_every == 1)
-    if t.cur is not None:
-        for i, label in enumerate(labels):
-            if ex.model.is_closed(t.cur):
-                break
-            v = t.step(label, protocol=(i + 1) % probe_every == 0 or i + 1 == len(labels))
-            if v == 'nolabel':
-                ex.nolabel += 1
-                break
-            if v != 'ok':
-                break
-    ex.finish(t)
-
-
-def biased_walk(ex: Exec, env: str, rng, length: int) -> None:
-    """Inputs chosen from the graph: half of the time one that changes the
-    state in the model."""
-    model = ex.model
-    t = ex.start(env, 'walk')
-    if t.cur is not None:
-        for _ in range(length):
-            if model.is_closed(t.cur):
-                break
-            outs = model.out.get(t.cur, {})
-            core = model.core_of[t.cur]
-            moving = [l for l, ds in sorted(outs.items())
-                      if any(model.core_of[x] != core and not model.is_closed(x) for x in ds)]
-            if moving and rng.random() < 0.5:
-                label = rng.choice(moving)
-            else:
-                label = rng.choice(sorted(outs))
-            if t.step(label) != 'ok':
-                break
-    ex.finish(t)
-
-
-def load_model(run: Run, cfg: str):
-    try:
-        graph, res = tlc.dump_graph('Conn.tla', cfg, workers=8)
-    except tlc.TLCError as exc:
-        run.machinery(str(exc))
-        return None
-    run.add_model(res, cfg)
-    if not res.ok:
-        run.machinery(f'model check of {cfg} failed: {res.violated or res.error}')
-        return None
-    model = cc.Model(graph)
-    bad = model.check_output_independent()
-    if bad:
-        run.machinery(bad)
-        return None
-    return model
+    def make(env: str, rng):
+        return cc.ImapDriver(env, rng, rich=True, config_kw=kw)
+    return make
 
 
 def main(tier: str) -> int:
@@ -197,7 +61,7 @@ def main(tier: str) -> int:
         'TLS is a flag on a fake transport (start_tls is not a real handshake)',
         'pysasl entry-point lookup is memoised in the harness process (speed only)']
 
-    model = load_model(run, CFG)
+    model = cc.load_model(run, CFG)
     if model is None:
         return run.finish()
     run.notes['graph'] = {'nodes': len(model.nodes), 'core_states': len(model.core_nodes),
@@ -210,10 +74,10 @@ def main(tier: str) -> int:
         return run.finish()
 
     quick = tier == 'quick'
-    ex = Exec(run, model, CFG)
+    ex = cc.Exec(run, 'C05', model, CFG, make_driver_for(CFG))
 
     # 2. transition tour with state identification after every input
-    info = tour(ex, max_len=400, deadline=t0 + (70 if quick else 600))
+    info = cc.tour(ex, max_len=400, deadline=t0 + (70 if quick else 600))
     run.notes['tour'] = info
     run.notes['tour_wall_s'] = round(time.time() - t0, 1)
     if info['uncovered']:
@@ -228,9 +92,9 @@ def main(tier: str) -> int:
         if quick and env != 'plain':
             # the TLS-required configuration differs before authentication only:
             # quick tier samples it
-            seqs = rng.sample(seqs, min(len(seqs), 1200))
+            seqs = rng.sample(seqs, min(len(seqs), 600))
         for labels in seqs:
-            run_labels(ex, env, labels, 'seq2', probe_every=2)
+            cc.run_labels(ex, env, labels, 'seq2', probe_every=2)
             nseq += 1
     run.notes['seq_len2'] = nseq
     # 3b. length 3: sample (quick) / many (thorough), always behind a login so
@@ -238,11 +102,11 @@ def main(tier: str) -> int:
     logins = [l for l in model.labels if model.parsed[l]['kind'] == 'auth'
               and model.parsed[l]['cred']['k'] == 'right'
               and model.parsed[l]['cred']['z'] == cc.NONE]
-    n3 = 1000 if quick else 60000
+    n3 = 600 if quick else 60000
     labels_all = model.labels
     for _ in range(n3):
         seq = [rng.choice(logins)] + [rng.choice(labels_all) for _ in range(3)]
-        run_labels(ex, 'plain', seq, 'login+seq3')
+        cc.run_labels(ex, 'plain', seq, 'login+seq3')
     run.notes['seq_len3_sampled'] = n3
     run.notes['seq_wall_s'] = round(time.time() - t1, 1)
 
@@ -259,10 +123,10 @@ def main(tier: str) -> int:
         labels = [l for l, _ in beh[1:] if l != 'Terminated']
         st0 = beh[0][1]
         env = 'plain' if not st0['stls'] else 'tlsremote'
-        run_labels(ex, env, labels, 'simulate')
+        cc.run_labels(ex, env, labels, 'simulate')
     run.notes['simulated_behaviours'] = len(behs)
     for i in range(200 if quick else 5000):
-        biased_walk(ex, rng.choice(envs), rng, rng.randint(8, 40))
+        cc.biased_walk(ex, rng.choice(envs), rng, rng.randint(8, 40))
     run.notes['random_wall_s'] = round(time.time() - t2, 1)
     run.notes['steps_on_server'] = ex.steps
     if ex.nolabel:
@@ -270,23 +134,18 @@ def main(tier: str) -> int:
 
     # 4. the bad-command limit of the default configuration
     t3 = time.time()
-    bmodel = load_model(run, 'Conn_badlimit.cfg')
+    bmodel = cc.load_model(run, 'Conn_badlimit.cfg')
     if bmodel is not None:
-        bex = Exec(run, bmodel, 'Conn_badlimit.cfg')
-        bex.n = 500000
-        run.notes['badlimit_tour'] = tour_glass(bex, t0 + (85 if quick else 900))
+        # no protocol probes here: they would reset the counter
+        bex = cc.Exec(run, 'C05', bmodel, 'Conn_badlimit.cfg',
+                      make_driver_for('Conn_badlimit.cfg'), first_id=500000)
+        run.notes['badlimit_tour'] = cc.tour(bex, 200, t0 + (110 if quick else 1000),
+                                             protocol=False, kind='badlimit-tour')
         for i in range(150 if quick else 2000):
-            n = bmodel.inits[0]
-            t = bex.start('plain', 'badlimit-walk', protocol=False)
-            if t.cur is not None:
-                for _ in range(rng.randint(5, 25)):
-                    if bmodel.is_closed(t.cur):
-                        break
-                    label = rng.choice(sorted(bmodel.out.get(t.cur, {})))
-                    if t.step(label, protocol=False) != 'ok':
-                        break
-            bex.finish(t)
+            cc.biased_walk(bex, 'plain', rng, rng.randint(5, 25), protocol=False,
+                           kind='badlimit-walk')
         ex.notes |= bex.notes
+        ex.steps += bex.steps
         run.notes['badlimit_wall_s'] = round(time.time() - t3, 1)
 
     if tier == 'thorough':
@@ -305,58 +164,5 @@ def main(tier: str) -> int:
     return run.finish()
 
 
-def tour_glass(ex: Exec, deadline: float) -> dict:
-    """Transition tour without protocol probes (they would reset the counter
-    that this configuration is about): state read off ConnectionState."""
-    model = ex.model
-    pl = cc.Planner(model, None)
-    total = pl.left()
-    paths = 0
-    while pl.left() and time.time() < deadline:
-        init = pl.best_init()
-        if init is None:
-            break
-        t = ex.start('plain', 'badlimit-tour', protocol=False)
-        paths += 1
-        if t.cur is None:
-            ex.finish(t)
-            break
-        while len(t.labels) < 200 and not model.is_closed(t.cur):
-            core = model.core_of[t.cur]
-            label, cover = pl.choose(core)
-            if label is None:
-                break
-            v = t.step(label, protocol=False)
-            pl.done(core, label)
-            if v != 'ok':
-                break
-        ex.finish(t)
-    return {'pairs': total, 'uncovered': pl.left(), 'paths': paths}
-
-
 def replay(path: str) -> int:
-    rec = json.load(open(path))
-    rep = rec['replay']
-    run = Run('C05', 'replay')
-    model = load_model(run, rep['cfg'])
-    if model is None:
-        return 2
-    cc.fingerprints()
-    rng = random.Random(rep['rng_seed'])
-    drv = make_driver(rep['env'], rng, rep['cfg'])
-    t = cc.Tracked(model, drv, {'env': rep['env'], 'kind': 'replay',
-                                'rng_seed': rep['rng_seed']})
-    glass = rep['cfg'] == 'Conn_badlimit.cfg'
-    status = 0
-    for label in rep['labels']:
-        v = t.step(label, protocol=not glass)
-        print(f"{label:50s} {t.trace[-1]['observed'] if t.trace else ''}  [{v}]")
-        if v != 'ok':
-            print('  ', t.problem[1])
-            print('   signature:', t.problem[2])
-            status = 1 if v == 'violation' else 0
-            break
-    for d, b in drv.transcript[-12:]:
-        print(d, b[:200])
-    drv.close()
-    return status
+    return cc.replay_file('C05', path, make_driver_for)
